@@ -124,6 +124,7 @@ class World:
         self.guards = []          # (expiry cycle, CancelScope)
         self.children = {}        # child name -> ChildInfo
         self.native_targets = set()
+        self.unclaimed_after_timeout = set()
         self.native_count = {}         # task -> number of native Task.cancel() calls issued by the harness
         self.tainted = set()           # tasks whose count is no longer attributable (CPython TaskGroup quirk)
         self.latencies = []
@@ -579,6 +580,10 @@ class World:
                 self.bad("c05:cancelling-residue", "after-asyncio.timeout", f"{c0} -> {task.cancelling()}")
             raise
         except asyncio.CancelledError as e:
+            if not is_anyio_cancel(e) and cm.expired() and ms.any_cancelled_above():
+                # the timeout expired, saw further cancellation requests pending (an AnyIO scope's) and let the
+                # CancelledError through - but the error carries no AnyIO message (the timeout's own cancel() came first)
+                self.unclaimed_after_timeout.add(task)
             if not is_anyio_cancel(e) and task not in self.native_targets and cm.expired() and outermost \
                     and not ms.any_cancelled_above() and not self.in_cancel_handler_at(task, t0 + d):
                 self.bad("c05:native-cancel-escaped", "asyncio.timeout",
@@ -618,8 +623,15 @@ class World:
         except asyncio.CancelledError as e:
             if not is_anyio_cancel(e) and task not in self.native_targets and outermost \
                     and not ms.any_cancelled_above():
-                self.bad("c05:native-cancel-escaped", "asyncio.TaskGroup",
-                         "a native CancelledError left asyncio.TaskGroup instead of the child's ExceptionGroup")
+                if task in self.unclaimed_after_timeout:
+                    # known finding F17 (recorded in known_findings.json under exactly this signature)
+                    self.bad("c05:native-cancel-escaped", "F17:asyncio.timeout-expired-inside-cancelled-scope",
+                             "an asyncio.timeout inside a cancelled AnyIO scope expired just before the scope's "
+                             "cancellation was delivered; it let the CancelledError pass (other requests pending), the "
+                             "scope did not recognise the message-less error as its own: nobody absorbs it")
+                else:
+                    self.bad("c05:native-cancel-escaped", "asyncio.TaskGroup",
+                             "a native CancelledError left asyncio.TaskGroup instead of the child's ExceptionGroup")
             raise
         finally:
             stack.pop()
